@@ -167,7 +167,9 @@ def _run_own(chk, S: Session):
                 for n, v in vals.items():
                     counts.setdefault(v, []).append(n)
                 odd = min(counts.values(), key=len)
-                s5.fail(f"scaling signs {meth} {k}", f"{odd} deviates: {vals} -- for scalings of mixed sign (negative time increments) the siblings return different covariances", None)
+                # the construct names who does what, so that a different disagreement at the same position is a different finding
+                desc = "; ".join(f"{n}: " + ", ".join(f"{('|' + a.split('.')[-1] + '|') if how == 'abs' else a.split('.')[-1]}" for a, how in v) for n, v in sorted(vals.items()))
+                s5.fail(f"scaling signs {meth} {k} [{desc}]", f"{odd} deviates: {vals} -- for scalings of mixed sign (negative time increments) the siblings return different covariances", None)
     chk.sample({"rule": "R-C14-S1", "revert_signature_dense": {k: repr(v) for k, v in list(sigs.get("revert", {}).get("dense", {}).items())[:4]}})
     composite_rules(chk, S, r2)
     misc_rules(chk, S, r3)
